@@ -36,7 +36,7 @@ inline std::string make(const Opt& o) {
     return outs.at(0);
 }
 
-inline ParamSpec PS(uint64_t m, uint64_t tps, int h, bool c = false) { return ParamSpec{m, tps, h, c}; }
+inline ParamSpec PS(uint64_t m, uint64_t tps, int h, int c = 0) { return ParamSpec{m, tps, h, c}; }
 
 inline std::string small() { Opt o; o.sets = {PS(10000, 1000000, 0)}; o.blocks = 3; o.per_block = 1; o.qr_from = 1; o.stats = false; return make(o); }
 inline std::string rich() { Opt o; o.sets = {PS(10000, 1000000, 0, true), PS(10000, 1000, 3, true)}; o.blocks = 2; o.per_block = 2; return make(o); }
